@@ -10,19 +10,6 @@ namespace Props.C06
 open Py Xs.Dates Xs.Spec Proofs.PeriodAccept Proofs.DatesAccept Proofs.DatesFormatParse
 open Xs.Conv (AllXsdSpace strip_xsd_pad)
 
-private theorem daysInMonth_pos (y : Int) (m : Nat) : 1 ≤ daysInMonth y m := by
-  unfold daysInMonth
-  split
-  · split <;> omega
-  · split <;> omega
-
-private theorem ofString_tight (e : Env) (pre post s : Str) (hpre : AllXsdSpace pre)
-    (hpost : AllXsdSpace post) (ht : Xs.Conv.Tight e.isSpace s) (p : TimePeriod)
-    (h : parsePeriod e s = some p) : XmlPeriod.ofString e (pre ++ s ++ post) = some (s, p) := by
-  unfold XmlPeriod.ofString
-  simp only []
-  rw [strip_xsd_pad e pre s post hpre hpost ht, h]; rfl
-
 /-- **period_accepts_valid (gDay)** -/
 theorem period_accepts_gDay (e : Env) (pre post s : Str) (d : Nat) (o : Option Int)
     (hpre : AllXsdSpace pre) (hpost : AllXsdSpace post) (h : XsdGDay s d o) :
@@ -146,20 +133,17 @@ theorem period_accepts_gYearMonth (e : Env) (pre post s : Str) (y : Int) (m : Na
     have h3 : 3 < ys.length := by omega
     simp [hv, h3]
 
-private theorem digs2 {s : Str} (h : s.all isAsciiDigit = true) : Xs.Conv.AllDigits s := by
-  intro c hc; exact List.all_eq_true.1 h c hc
-
 /-! the hypotheses are satisfiable: one form per shape, among them the gYear with a
 negative timezone that a seeded change once misread as gYearMonth -/
 
 example : XsdGYear "2001-05:00".toList 2001 (some (-300)) :=
-  ⟨"2001".toList, "-05:00".toList, ⟨false, "2001".toList, rfl, digs2 (by decide), by decide, by decide, rfl⟩,
+  ⟨"2001".toList, "-05:00".toList, ⟨false, "2001".toList, rfl, allDigits_of_all (by decide), by decide, by decide, rfl⟩,
     Or.inr (Or.inr ⟨'-', "05".toList, "00".toList, 5, 0, Or.inr rfl, ⟨'0', '5', rfl, rfl, rfl, rfl⟩,
       ⟨'0', '0', rfl, rfl, rfl, rfl⟩, Or.inl ⟨by decide, by decide⟩, rfl, rfl⟩), rfl⟩
 
 example : XsdGYearMonth "-12345-12Z".toList (-12345) 12 (some 0) :=
   ⟨"-12345".toList, "12".toList, "Z".toList,
-    ⟨true, "12345".toList, rfl, digs2 (by decide), by decide, by decide, rfl⟩,
+    ⟨true, "12345".toList, rfl, allDigits_of_all (by decide), by decide, by decide, rfl⟩,
     ⟨⟨'1', '2', rfl, rfl, rfl, rfl⟩, by decide, by decide⟩, Or.inr (Or.inl ⟨rfl, rfl⟩), rfl⟩
 
 example : XsdGMonthDay "--02-29".toList 2 29 none :=
